@@ -87,6 +87,43 @@ fn query_script(q: &str, name: &str, aliased: bool, i: usize) -> String {
     format!("{body}\nmk {i}\n")
 }
 
+/// Classification of what `command -V` / `type` wrote (the wording is
+/// unspecified; the words below are those of the current implementation).
+fn describe(name: &str, cwd: &str, out: &str, st: i64) -> Value {
+    if st != 0 {
+        return json!({"kind": "notfound", "path": "", "found": false, "text": out});
+    }
+    let line = out.strip_suffix('\n').unwrap_or(out);
+    let desc = line.strip_prefix(&format!("{name}: ")).unwrap_or(line);
+    let kind = if desc.starts_with("alias") {
+        "alias"
+    } else if desc.contains("keyword") || desc.contains("reserved word") {
+        "keyword"
+    } else if desc.contains("function") {
+        "function"
+    } else if desc.contains("special built-in") {
+        "special"
+    } else if desc.contains("built-in") {
+        "builtin"
+    } else if desc.contains("external") {
+        "external"
+    } else {
+        "odd"
+    };
+    let path = if kind == "alias" {
+        String::new()
+    } else {
+        match desc.find('/') {
+            Some(p) => {
+                let rest: String = desc[p..].chars().take_while(|c| !c.is_whitespace() && *c != '\'' && *c != '"').collect();
+                canon(cwd, &rest)
+            }
+            None => String::new(),
+        }
+    };
+    json!({"kind": kind, "path": path, "found": true, "text": out})
+}
+
 /// Abstraction of what a query did.
 fn observe(q: &str, name: &str, cwd: &str, events: &[Value], mark: &Value) -> Value {
     let st = mark["st"].as_i64().unwrap_or(-1);
@@ -102,40 +139,7 @@ fn observe(q: &str, name: &str, cwd: &str, events: &[Value], mark: &Value) -> Va
             }
             json!({"out": text, "found": st == 0})
         }
-        "V" | "pV" | "type" => {
-            if st != 0 {
-                return json!({"kind": "notfound", "path": "", "found": false, "text": out});
-            }
-            let line = out.strip_suffix('\n').unwrap_or(out);
-            let desc = line.strip_prefix(&format!("{name}: ")).unwrap_or(line);
-            let kind = if desc.starts_with("alias") {
-                "alias"
-            } else if desc.contains("keyword") || desc.contains("reserved word") {
-                "keyword"
-            } else if desc.contains("function") {
-                "function"
-            } else if desc.contains("special built-in") {
-                "special"
-            } else if desc.contains("built-in") {
-                "builtin"
-            } else if desc.contains("external") {
-                "external"
-            } else {
-                "odd"
-            };
-            let path = if kind == "alias" {
-                String::new()
-            } else {
-                match desc.find('/') {
-                    Some(p) => {
-                        let rest: String = desc[p..].chars().take_while(|c| !c.is_whitespace() && *c != '\'' && *c != '"').collect();
-                        canon(cwd, &rest)
-                    }
-                    None => String::new(),
-                }
-            };
-            json!({"kind": kind, "path": path, "found": true, "text": out})
-        }
+        "V" | "pV" | "type" => describe(name, cwd, out, st),
         "plain" | "cmd" | "cmdp" => {
             let inner = events.iter().find(|e| e["ev"] == "mk" && e["id"] == "r");
             let bi = events.iter().find(|e| e["ev"] == "bi");
@@ -266,8 +270,11 @@ pub fn run_state(s: &Value, name: &str, ask: &[String]) -> Result<Vec<Value>, St
         }
     }));
     let res = run_shell(cfg);
-    if let Outcome::Panic(m) = &res.outcome {
-        return Ok(ask.iter().map(|_| json!({"panic": m})).collect());
+    match &res.outcome {
+        Outcome::Completed => {}
+        // a panic, a deadlock or a run-away of the shell is data: no query of this state agrees
+        Outcome::Panic(m) => return Ok(ask.iter().map(|_| json!({"panic": m})).collect()),
+        other => return Ok(ask.iter().map(|_| json!({"panic": format!("{other:?}")})).collect()),
     }
     // group the events by the numeric marks
     let mut groups: Vec<(Vec<Value>, Value)> = vec![];
@@ -305,6 +312,160 @@ pub fn run_state(s: &Value, name: &str, ask: &[String]) -> Result<Vec<Value>, St
         ));
     }
     Ok(groups.iter().zip(ask).map(|((ev, mk), q)| observe(q, name, &cwd, ev, mk)).collect())
+}
+
+// ---------------------------------------------------------------------------
+// the same queries on the REAL operating system (family "X" of Gen_CmdSearch)
+// ---------------------------------------------------------------------------
+
+/// Pathname of the model (working directory /w) -> pathname relative to the scratch directory.
+fn rel_of(p: &str) -> Option<String> {
+    if p == "/w" { Some(".".to_string()) } else { p.strip_prefix("/w/").map(|s| s.to_string()) }
+}
+
+/// Runs the queries on the real kernel: the mirror runner of yvcommon::real
+/// (RealSystem, the generic probe built-ins), executables are `#!/bin/sh`
+/// scripts that print `RAN $0 $*`.
+pub fn run_state_real(s: &Value, name: &str, ask: &[String]) -> Result<Vec<Value>, String> {
+    use yvcommon::real::{RealCfg, run_real};
+    if s["cwd"] != "/w" || s["posix"] == true || s["portable"] == true || !strs(&s["als"]).is_empty() {
+        return Err("state not supported on the real OS".into());
+    }
+    let mut files = vec![];
+    for f in s["files"].as_array().unwrap() {
+        let p = rel_of(f["p"].as_str().unwrap()).ok_or("file outside the working directory")?;
+        match f["k"].as_str().unwrap() {
+            "exec" => files.push(FileSpec::Regular { path: p, content: b"#!/bin/sh\necho \"RAN $0 $*\"\n".to_vec(), mode: 0o755 }),
+            "plain" => files.push(FileSpec::Regular { path: p, content: b"plain text\n".to_vec(), mode: 0o644 }),
+            "dir" => files.push(FileSpec::Dir { path: p }),
+            k => return Err(format!("bad file kind {k}")),
+        }
+    }
+    for d in ["d1", "d2", "r"] {
+        files.push(FileSpec::Dir { path: d.to_string() });
+    }
+    let mut comps = vec![];
+    for d in strs(&s["path"]) {
+        comps.push(if d.starts_with('/') {
+            match rel_of(&d).ok_or("PATH directory outside the working directory")?.as_str() {
+                "." => "$PWD".to_string(),
+                r => format!("$PWD/{r}"),
+            }
+        } else {
+            d
+        });
+    }
+    let mut script = format!("probe CWD \"$PWD\"\nPATH=\"{}\"\n", comps.join(":"));
+    for f in strs(&s["fns"]) {
+        script.push_str(&format!("{f}() {{ probe FN \"$@\"; }}\n"));
+    }
+    // an absolute name of the model lies under the scratch directory
+    let shown = name;
+    let name = match name.strip_prefix("/w/") {
+        Some(rest) => format!("$PWD/{rest}"),
+        None => name.to_string(),
+    };
+    for (i, q) in ask.iter().enumerate() {
+        let body = match q.as_str() {
+            "v" => format!("command -v {name}"),
+            "V" => format!("command -V {name}"),
+            "type" => format!("type {name}"),
+            "plain" => format!("(v=A; v=B {name} a1; probe MKR \"$v\")"),
+            "cmd" => format!("(v=A; v=B command {name} a1; probe MKR \"$v\")"),
+            other => return Err(format!("query {other} not supported on the real OS")),
+        };
+        script.push_str(&format!("{body}\nprobe MK {i}\necho @@\n"));
+    }
+    let mut cfg = RealCfg::command(&script, true);
+    cfg.files = files;
+    let mut res = run_real(&cfg);
+    if res.timed_out {
+        // the machine is shared: one more try with a generous limit before a hang is taken for data
+        cfg.timeout = std::time::Duration::from_secs(60);
+        res = run_real(&cfg);
+    }
+    if res.timed_out {
+        return Ok(ask.iter().map(|_| json!({"panic": "timeout"})).collect());
+    }
+    let stdout = String::from_utf8_lossy(&res.stdout).into_owned();
+    let parts: Vec<&str> = stdout.split("@@\n").collect();
+    let arg0 = |e: &Value| e["args"].get(0).and_then(|a| a.as_str()).unwrap_or("").to_string();
+    let root = res.events.iter().find(|e| e["ev"] == "probe" && arg0(e) == "CWD").and_then(|e| e["args"].get(1)).and_then(|a| a.as_str());
+    let Some(root) = root else {
+        return Err(format!("real run did not start: status {} stderr {}", res.status, String::from_utf8_lossy(&res.stderr)));
+    };
+    let to_model = |p: &str| -> String {
+        match p.strip_prefix(root) {
+            Some(rest) => canon("/w", &format!("/w{rest}")),
+            None => canon("/w", p),
+        }
+    };
+    let mut groups: Vec<(Vec<Value>, Value)> = vec![];
+    let mut cur = vec![];
+    for e in &res.events {
+        if e["ev"] == "probe" && arg0(e) == "MK" {
+            groups.push((std::mem::take(&mut cur), e.clone()));
+        } else if e["ev"] == "probe" && arg0(e) == "CWD" {
+        } else {
+            cur.push(e.clone());
+        }
+    }
+    if groups.len() != ask.len() || parts.len() < ask.len() {
+        return Err(format!("real run: {} of {} queries marked; status {}; stderr: {}\nscript:\n{script}", groups.len(), ask.len(),
+                           res.status, String::from_utf8_lossy(&res.stderr)));
+    }
+    let mut out = vec![];
+    for (i, q) in ask.iter().enumerate() {
+        let (ev, mk) = &groups[i];
+        let st = mk["st"].as_i64().unwrap_or(-1);
+        let text = parts[i];
+        out.push(match q.as_str() {
+            "v" => {
+                let t = text.strip_suffix('\n').unwrap_or(text);
+                json!({"out": if t.starts_with('/') { to_model(t) } else { t.to_string() }, "found": st == 0})
+            }
+            "V" | "type" => {
+                let shown_abs = if shown.starts_with("/w/") { format!("{root}/{}", &shown[3..]) } else { shown.to_string() };
+                let mut d = describe(&shown_abs, "/w", text, st);
+                if let Some(p) = d["path"].as_str().filter(|p| !p.is_empty()).map(|p| p.to_string()) {
+                    d["path"] = json!(to_model(&p));
+                }
+                d
+            }
+            _ => {
+                let inner = ev.iter().find(|e| e["ev"] == "probe" && arg0(e) == "MKR");
+                let fnp = ev.iter().find(|e| e["ev"] == "probe" && arg0(e) == "FN");
+                match inner {
+                    None => json!({"what": "aborted", "path": "", "st": st, "sp": false, "persist": "?"}),
+                    Some(inner) => {
+                        let ist = inner["st"].as_i64().unwrap_or(-1);
+                        let persist = match inner["args"].get(1).and_then(|a| a.as_str()) {
+                            Some("B") => "Y",
+                            Some("A") => "N",
+                            _ => "?",
+                        };
+                        let ran: Vec<&str> = text.lines().filter(|l| l.starts_with("RAN ")).collect();
+                        if let Some(f) = fnp {
+                            let ok = strs(&f["args"]) == ["FN", "a1"];
+                            json!({"what": if ok { "function" } else { "function-badargs" }, "path": "", "st": 0, "sp": false, "persist": persist})
+                        } else if let Some(l) = ran.first() {
+                            let w: Vec<&str> = l.split(' ').collect();
+                            let ok = ran.len() == 1 && w.len() == 3 && w[2] == "a1";
+                            json!({"what": if ok { "exec" } else { "exec-badargs" }, "path": to_model(w.get(1).copied().unwrap_or("")),
+                                   "st": 0, "sp": false, "persist": persist})
+                        } else if ist == 126 || ist == 127 {
+                            json!({"what": "fail", "path": "", "st": ist, "sp": false, "persist": persist})
+                        } else if REAL.contains(&shown) {
+                            json!({"what": "builtin", "path": "", "st": 0, "sp": persist == "Y", "persist": persist})
+                        } else {
+                            json!({"what": "odd", "path": "", "st": ist, "sp": false, "persist": persist})
+                        }
+                    }
+                }
+            }
+        });
+    }
+    Ok(out)
 }
 
 // ---------------------------------------------------------------------------
@@ -360,7 +521,15 @@ pub fn replay(args: &[String]) -> i32 {
         }
         lines.push(v);
     }
-    let results = par_map(&lines, threads, |v| run_state(&v["S"], v["name"].as_str().unwrap(), &strs(&v["ask"])));
+    let real = args.iter().any(|a| a == "--real");
+    // Real runs are made one at a time: with several harness threads a shell child forked by one
+    // thread inherits (until its exec) the descriptor through which another thread is writing an
+    // executable script, and executing that script then fails with ETXTBSY (exit status 126).
+    let threads = if real { 1 } else { threads };
+    let results = par_map(&lines, threads, |v| {
+        let (s, name, ask) = (&v["S"], v["name"].as_str().unwrap(), strs(&v["ask"]));
+        if real { run_state_real(s, name, &ask) } else { run_state(s, name, &ask) }
+    });
     let mut out = util::open_out(args);
     let (mut nq, mut mism, mut unsp) = (0usize, 0usize, 0usize);
     let mut tags: std::collections::BTreeMap<String, usize> = Default::default();
@@ -502,10 +671,11 @@ fn trace_record(s: &Value, name: &str, q: &str, o: &Value) -> Value {
 }
 
 /// Re-runs one record ({S, name, query}) and writes the trace record.
-pub fn one(rec: &Value, out: &mut dyn Write) -> i32 {
+pub fn one(rec: &Value, real: bool, out: &mut dyn Write) -> i32 {
     let q = rec["query"].as_str().unwrap().to_string();
     let name = rec["name"].as_str().unwrap();
-    match run_state(&rec["S"], name, std::slice::from_ref(&q)) {
+    let res = if real { run_state_real(&rec["S"], name, std::slice::from_ref(&q)) } else { run_state(&rec["S"], name, std::slice::from_ref(&q)) };
+    match res {
         Ok(o) => {
             writeln!(out, "{}", trace_record(&rec["S"], name, &q, &o[0])).unwrap();
             0
